@@ -1,6 +1,7 @@
 import FsutilModel.Walk
 import FsutilModel.Model.WalkB
 import FsutilModel.WalkBuild
+import FsutilModel.ByteOrd
 /-! # C09 — Walk lists every entry once, parents first, in protocol path order -/
 namespace Fsm.C09
 
@@ -29,6 +30,20 @@ tree built from those paths — is strictly ascending in the protocol's path com
 theorem walk_order_ascending (paths : List Path) (h : ∀ p ∈ paths, ∀ c ∈ comps p, NameOK c) :
     (walk [] (buildTree paths)).Pairwise (fun a b => comparePath a b < 0) :=
   walk_ascending [] (buildTree paths) (buildTree_WF paths h)
+
+/-- Every entry is listed once: the walk of any well-formed tree, below any prefix, has no repeated
+path (a strictly ascending sequence has none, since `ComparePath` is irreflexive). -/
+theorem walk_lists_each_entry_once (pre : Path) (t : Node) (h : WF t) : (walk pre t).Nodup := by
+  refine List.Pairwise.imp ?_ (walk_ascending pre t h)
+  intro a b hlt hab
+  subst hab
+  rw [cmp_neg_iff_lex] at hlt
+  exact absurd hlt (by simp [lexLt_irrefl])
+
+/-- the same for the executable model the correspondence runs (tree built from a snapshot's path set) -/
+theorem walk_order_lists_once (paths : List Path) (h : ∀ p ∈ paths, ∀ c ∈ comps p, NameOK c) :
+    (walk [] (buildTree paths)).Nodup :=
+  walk_lists_each_entry_once [] _ (buildTree_WF paths h)
 
 /-- non-vacuity: the tree a/{b}, "a b", "a-b" is well-formed and walks as a, a/b, a b, a-b -/
 example : walk [] (.dir [([97], .dir [([98], .file)]), ([97, 32, 98], .file), ([97, 45, 98], .file)])
